@@ -13,6 +13,7 @@ A property module (checks/cXX.py) supplies:
   search(ctx, budget) -> list[(case, impl_line, why)]   larger targeted search on the implementation only
   (optional) extra_checks(ctx) -> list of (kind, detail, case)   e.g. CLI level runs
 """
+import time
 import hashlib, json, os, random, re, subprocess, sys, time, shutil, concurrent.futures as cf
 
 VERIF = os.path.dirname(os.path.dirname(os.path.abspath(__file__)))
@@ -270,29 +271,84 @@ def build_cli(profile="release"):
 
 
 # ------------------------------------------------------------------------------------------ running cases
+def _run_watch(cmd, casefile, timeout, stall):
+    """run `cmd casefile` with stdout in a file; kill it when the whole run exceeds `timeout` or when no new output has
+    appeared for `stall` seconds (every harness and driver flushes one line per case, so a silent process is stuck
+    on ONE case: a hang must cost minutes, not the whole budget).  Returns (rc, stdout text); rc 124 = killed."""
+    e = dict(os.environ)
+    e.update({"CARGO_NET_OFFLINE": "true"})
+    e.setdefault("GLIBC_TUNABLES",
+                 "glibc.malloc.mmap_threshold=4294967296:glibc.malloc.trim_threshold=4294967296")
+    outp = casefile + ".out"
+    with open(outp, "wb") as fo:
+        pr = subprocess.Popen(cmd + [casefile], stdout=fo, stderr=subprocess.DEVNULL, env=e, start_new_session=True)
+        t0 = last = time.time()
+        size = 0
+        rc = None
+        while True:
+            try:
+                rc = pr.wait(timeout=0.5)
+                break
+            except subprocess.TimeoutExpired:
+                pass
+            now = time.time()
+            sz = os.path.getsize(outp)
+            if sz != size:
+                size, last = sz, now
+            if now - t0 > timeout or now - last > stall:
+                try:
+                    os.killpg(pr.pid, 9)
+                except OSError:
+                    pr.kill()
+                pr.wait()
+                rc = 124
+                break
+    out = open(outp, errors="replace").read()
+    os.unlink(outp)
+    return rc, out
+
+
 def _run_shard(args):
     cmd, lines, timeout = args
     import tempfile
-    with tempfile.NamedTemporaryFile("w", suffix=".cases", delete=False, dir=os.path.join(CACHE, "tmp")) as f:
-        f.write("\n".join(lines) + "\n")
-        name = f.name
-    try:
-        rc, out = sh(cmd + [name], timeout=timeout, merge_stderr=False)
-    finally:
-        os.unlink(name)
-    res = out.split("\n")
-    if res and res[-1] == "":
-        res.pop()
-    if len(res) != len(lines):
-        # a crash (abort, stack overflow, timeout) loses alignment: rerun line by line
-        res = []
-        for l in lines:
-            with open(name, "w") as f:
-                f.write(l + "\n")
-            rc1, o1 = sh(cmd + [name], timeout=max(30, timeout // 4), merge_stderr=False)
-            o1 = o1.strip("\n").split("\n")
-            res.append(o1[0] if (rc1 == 0 and len(o1) == 1) else f"CRASH rc={rc1} {' '.join(o1)[-200:]}")
+    stall = int(os.environ.get("VERIF_STALL", max(300, timeout // 3)))
+    res = []
+    rest = list(lines)
+    while rest:
+        with tempfile.NamedTemporaryFile("w", suffix=".cases", delete=False, dir=os.path.join(CACHE, "tmp")) as f:
+            f.write("\n".join(rest) + "\n")
+            name = f.name
+        try:
+            rc, out = _run_watch(cmd, name, timeout, stall)
+        finally:
             os.unlink(name)
+        got = out.split("\n")
+        complete = got[:-1]                       # the piece after the last newline is "" or a torn line
+        if rc == 0 and len(complete) == len(rest):
+            res += complete
+            break
+        if rc == 0 or len(complete) >= len(rest):
+            # exit 0 with a wrong number of lines: alignment is unknown, rerun line by line
+            for l in rest:
+                with open(name, "w") as f:
+                    f.write(l + "\n")
+                rc1, o1 = _run_watch(cmd, name, max(30, timeout // 4), stall)
+                o1 = o1.strip("\n").split("\n")
+                res.append(o1[0] if (rc1 == 0 and len(o1) == 1) else f"CRASH rc={rc1} {' '.join(o1)[-200:]}")
+                os.unlink(name)
+            break
+        # a crash (abort, stack overflow, exit) or a hang (killed: rc 124) on case number len(complete): keep the
+        # answers before it, record the culprit, go on with the cases after it
+        k = len(complete)
+        if rc == 3 and k > 0:
+            # harness convention (c06): the case's own line (HANG ...) was printed, then exit(3) because the stuck
+            # threads cannot be joined: that line IS the answer of case k-1; go on after it
+            res += complete
+            rest = rest[k:]
+            continue
+        res += complete
+        res.append(f"CRASH rc={rc} {'no output for %d s or run over %d s (hang): killed' % (stall, timeout) if rc == 124 else ''} {got[-1][-200:]}".strip())
+        rest = rest[k + 1:]
     return res
 
 
